@@ -435,6 +435,9 @@ func (t *Term) Bounds() (lo, hi *big.Int) {
 				for i, a := range atoms {
 					as[a] = mask>>i&1 == 1
 				}
+				if !feasibleAssign(atoms, as) {
+					continue
+				}
 				v := t.evalPure(as)
 				if lo == nil || v.Cmp(lo) < 0 {
 					lo = v
@@ -442,6 +445,9 @@ func (t *Term) Bounds() (lo, hi *big.Int) {
 				if hi == nil || v.Cmp(hi) > 0 {
 					hi = v
 				}
+			}
+			if lo == nil {
+				lo, hi = new(big.Int), new(big.Int)
 			}
 			t.lo, t.hi = lo, hi
 			return
@@ -525,4 +531,59 @@ func Ite(p, a, b *Term) *Term {
 		return nil
 	}
 	return b.Add(d)
+}
+
+
+// feasibleAssign rejects truth assignments that contradict the relations between comparison atoms: two equalities
+// [E = 0], [E + c = 0] (c != 0) cannot both hold; [A < B] and [A = B] cannot both hold; under [E = 0] a comparison
+// whose difference is α·E + β has the value [β > 0].
+func feasibleAssign(atoms []*PAtom, as map[*PAtom]bool) bool {
+	for _, p := range atoms {
+		if !as[p] {
+			// "some symbol of S is non-zero" contradicts true tests whose zero sets cover S
+			if p.Kind == PEQZ && symZeroSet(p.A) {
+				covered := map[*IAtom]bool{}
+				for _, q := range atoms {
+					if q != p && as[q] && q.Kind == PEQZ {
+						for a := range zeroSet(q.A) {
+							covered[a] = true
+						}
+					}
+				}
+				all := true
+				for _, m := range p.A.mons {
+					if !covered[m.atom] {
+						all = false
+					}
+				}
+				if all {
+					return false
+				}
+			}
+			continue
+		}
+		switch p.Kind {
+		case PEQZ:
+			for _, q := range atoms {
+				if q == p {
+					continue
+				}
+				switch q.Kind {
+				case PEQZ:
+					if v, ok := valueUnder(q.A, p.A); ok && (v.Sign() == 0) != as[q] {
+						return false
+					}
+				case PLT:
+					if beta, ok := valueUnder(q.B.Sub(q.A), p.A); ok && (beta.Sign() > 0) != as[q] {
+						return false
+					}
+				}
+			}
+		case PLT:
+			if eq := EQ(p.A, p.B).SinglePred(); eq != nil && as[eq] {
+				return false
+			}
+		}
+	}
+	return true
 }
